@@ -1,0 +1,52 @@
+package validator
+
+import (
+	"github.com/open-policy-agent/opa/ast"
+)
+
+// deniedCallsInPrintModifiers looks for calls of the built-ins in unsafeBuiltinsMap in the with-modifiers of print(...)
+// calls, in the module as it is written. The compiler checks for unsafe built-ins only after it has rewritten the print
+// calls, and that rewrite drops their with-modifiers: `print("x") with input as http.send(...)` used to be accepted, with
+// the call removed, instead of being rejected like any other call of http.send. Everything else is still in the module
+// when the compiler checks it. Functions that the module defines itself under one of these names are not the built-ins.
+func deniedCallsInPrintModifiers(name string, code string) error {
+	module, err := ast.ParseModule(name, code)
+	if err != nil || module == nil {
+		return err
+	}
+	own := make(map[string]bool)
+	for _, rule := range module.Rules {
+		own[rule.Head.Name.String()] = true
+	}
+	var found error
+	report := func(operator *ast.Term) {
+		called := operator.String()
+		if _, denied := unsafeBuiltinsMap[called]; denied && !own[called] && found == nil {
+			found = ast.Errors{ast.NewError(ast.TypeErr, operator.Location, "unsafe built-in function calls in expression: %v", called)}
+		}
+	}
+	search := func(node interface{}) {
+		ast.WalkExprs(node, func(expr *ast.Expr) bool {
+			if expr.IsCall() {
+				report(expr.OperatorTerm())
+			}
+			return false
+		})
+		ast.WalkTerms(node, func(term *ast.Term) bool {
+			if call, ok := term.Value.(ast.Call); ok && len(call) > 0 {
+				report(call[0])
+			}
+			return false
+		})
+	}
+	ast.WalkExprs(module, func(expr *ast.Expr) bool {
+		if expr.IsCall() && expr.Operator().String() == ast.Print.Name {
+			for _, modifier := range expr.With {
+				search(modifier.Target)
+				search(modifier.Value)
+			}
+		}
+		return false
+	})
+	return found
+}
